@@ -40,6 +40,27 @@ impl Mmap {
     /// empty `Mmap` (which makes no system calls), use `Mmap::empty` instead.
     #[cfg(not(target_os = "windows"))]
     pub fn new(capacity: usize) -> Result<Self, std::io::Error> {
+        // Verification knob: a smaller allocation granularity makes the
+        // regrowth path in `MmapWriter` reachable for small tapes
+        #[cfg(fidget_verif)]
+        if let Some(page) = fidget_core::verif::page_size_override() {
+            let capacity = capacity.max(1).next_multiple_of(page);
+            let ptr = unsafe {
+                libc::mmap(
+                    std::ptr::null_mut(),
+                    capacity,
+                    Self::MMAP_PROT,
+                    Self::MMAP_FLAGS,
+                    -1,
+                    0,
+                )
+            };
+            return if std::ptr::eq(ptr, libc::MAP_FAILED) {
+                Err(std::io::Error::last_os_error())
+            } else {
+                Ok(Self { ptr, capacity })
+            };
+        }
         let capacity = capacity.max(1).next_multiple_of(Self::PAGE_SIZE);
 
         let ptr = unsafe {
@@ -237,6 +258,8 @@ impl MmapWriter {
 
     #[inline(never)]
     fn double_capacity(&mut self) {
+        #[cfg(fidget_verif)]
+        fidget_core::verif::probe("mmap_regrow");
         let mut next = Mmap::new(self.mmap.capacity * 2).unwrap();
         unsafe {
             std::ptr::copy_nonoverlapping(self.mmap.ptr, next.ptr, self.len());
